@@ -470,6 +470,11 @@ func Main(corpusJSON string) {
 			nf = 3
 		}
 		cases = append(cases, e1.Case{Sc: mapsAndErrorsScenario(i, nf), Opt: vm.Options{Bound: 0, StrictDev: true}, Budget: budget, MinOutcomes: 1})
+		tp := 3
+		if run.Thorough() {
+			tp = 0
+		}
+		cases = append(cases, e1.Case{Sc: tupScenario(i, tp), Opt: vm.Options{Bound: 0, StrictDev: true}, Budget: budget, MinOutcomes: 1})
 	}
 	var svc *Iface
 	for _, i := range ifaces {
@@ -540,6 +545,19 @@ func Main(corpusJSON string) {
 		}
 		os.Exit(0)
 	}
+	if only := os.Getenv("C01_ONLY"); only != "" {
+		// a part of another property's check (C16: behaviour of the emitted proxies and dispatchers)
+		var keep []e1.Case
+		for _, c := range cases {
+			for _, pre := range strings.Split(only, ",") {
+				if strings.HasPrefix(c.Sc.Name, pre) {
+					keep = append(keep, c)
+					break
+				}
+			}
+		}
+		cases = keep
+	}
 	if os.Getenv("C01_LIST") != "" {
 		for _, c := range cases {
 			fmt.Println(c.Sc.Name)
@@ -548,6 +566,7 @@ func Main(corpusJSON string) {
 	e1.Main(run, cases, []string{
 		"client and server are the code emitted by the working-tree tars2go for the generated IDL corpus (every interface function), joined by the real TarsGo client and server stacks over the in-memory network",
 		"values: every parameter / out parameter / return value position varied over its lattice with the others at a baseline (1-deviation product); maps: request and response context/status menus {nil, {}, 1, 2 entries}; outcomes: plain error and *tars.Error codes, two-way and one-way",
+		"TUP-versioned requests (attribute sets built and decoded by verif/ref) go to the generated dispatcher directly: every function, every position over its lattice (<=3 values per position quick)",
 		"filters are pass-through: legacy and middleware filters call on exactly once, pre/post filters only observe",
 		"nil and empty containers are identified; floats are compared by bit pattern",
 	})
